@@ -14,12 +14,10 @@
    ParseFacts proves that `S (length expression)` is enough (PFuel never is the result of parse). *)
 From Coq Require Import List NArith Arith Bool.
 From Delb.Base Require Import PyStr.
-From Delb.XPath Require Import XBase Tok Ast.
-From Delb.Gen Require Import GenXPath.
+From Delb.XPath Require Import XBase Tok TTree Ast.
+From Delb.Gen Require Import GenXPath GenXPathFns.
 Import ListNotations.
 
-(* TokenTree = Sequence[Token | TokenTree] *)
-Inductive ttree := TT (t : token) | TG (l : list ttree).
 
 (* number of tokens *)
 Fixpoint tsize (t : ttree) : nat :=
